@@ -23,8 +23,12 @@ EXTENDS Integers, Sequences, FiniteSets, TLC
 CONSTANTS Clients, Servers, Keys, KeyOf, SrvOf, MaxDt, MaxCrash, Variant, MaxCalls
 
 None == [srv |-> "none", dt |-> 0, len |-> 0]
-Chunks(p) == [i \in 1..p.len |-> [p |-> p, i |-> i]]
+\* (a profile has 1 or 2 chunks; spelled out as sequences so that Apalache can type it, spec/APA_ProfileCache.tla)
+\* @type: ({srv: Str, dt: Int, len: Int}) => Seq({p: {srv: Str, dt: Int, len: Int}, i: Int});
+Chunks(p) == IF p.len <= 0 THEN <<>> ELSE IF p.len = 1 THEN <<[p |-> p, i |-> 1]>> ELSE <<[p |-> p, i |-> 1], [p |-> p, i |-> 2]>>
+\* @type: (Seq({p: {srv: Str, dt: Int, len: Int}, i: Int})) => Bool;
 Whole(content) == content # <<>> /\ LET p == content[1].p IN content = Chunks(p)
+\* @type: (Seq({p: {srv: Str, dt: Int, len: Int}, i: Int})) => {srv: Str, dt: Int, len: Int};
 ProfOf(content) == content[1].p
 VARIABLES disk,    \* [Keys -> [exists, content]]
           tmpf,    \* [Clients -> content]         private temporary file (atomic variant)
@@ -78,11 +82,15 @@ OpenTrunc(c) == /\ Variant = "inplace" /\ pc[c] = "write"
                 /\ disk' = [disk EXCEPT ![K(c)] = [exists |-> TRUE, content |-> <<>>]]
                 /\ off' = [off EXCEPT ![c] = 0] /\ pc' = [pc EXCEPT ![c] = "opened"]
                 /\ UNCHANGED <<tmpf, held, resp, ret, srvdt, sent, crashes, calls>>
+\* one chunk written at offset `at` of a file: replaces what is there, extends the file, or leaves a hole before it
+Filler == [p |-> None, i |-> 0]
+\* @type: (Seq({p: {srv: Str, dt: Int, len: Int}, i: Int}), {p: {srv: Str, dt: Int, len: Int}, i: Int}, Int) => Seq({p: {srv: Str, dt: Int, len: Int}, i: Int});
 Overlay(old, new, at) ==
-  [i \in 1..(IF Len(old) > at + Len(new) THEN Len(old) ELSE at + Len(new)) |->
-     IF i > at /\ i <= at + Len(new) THEN new[i - at] ELSE IF i <= Len(old) THEN old[i] ELSE [p |-> None, i |-> 0]]
+  IF at + 1 <= Len(old) THEN [old EXCEPT ![at + 1] = new]
+  ELSE IF at = Len(old) THEN Append(old, new)
+  ELSE Append(Append(old, Filler), new)            \* (offsets are 0 or 1: the hole is one chunk)
 WriteChunk(c) == /\ Variant = "inplace" /\ pc[c] = "opened"
-                 /\ LET p == resp[c].p  ch == <<[p |-> p, i |-> off[c] + 1]>> IN
+                 /\ LET p == resp[c].p  ch == [p |-> p, i |-> off[c] + 1] IN
                     /\ disk' = [disk EXCEPT ![K(c)].content = Overlay(@, ch, off[c]), ![K(c)].exists = TRUE]
                     /\ off' = [off EXCEPT ![c] = @ + 1]
                     /\ pc' = [pc EXCEPT ![c] = IF off[c] + 1 = p.len THEN "closing" ELSE "opened"]
